@@ -112,7 +112,9 @@ partial def canonVal : C10.Val → C10.Val
   | .list xs => .list (xs.map canonVal)
   | .tuple xs => .tuple (xs.map canonVal)
   | .dict kvs => .dict ((kvs.map (fun p => (p.1, canonVal p.2))).mergeSort (fun a b => decide (a.1 ≤ b.1)))
-  | .lazy kvs n => .lazy ((kvs.map (fun p => (p.1, canonVal p.2))).mergeSort (fun a b => decide (a.1 ≤ b.1))) n
+  | .lazy kvs n =>
+    -- a lazy dense row is (Python-)equal to the list of its values: interactions are interned at that level
+    .list ((List.range n).map (fun i => match kvs.find? (fun p => p.1 == i) with | some (_, v) => canonVal v | none => .num 0))
   | v => v
 
 /-- what is observable of an interaction (values, rewards and feedbacks evaluated on every action), as a key -/
